@@ -158,7 +158,7 @@ class Oracle:
             if (a[0], a[1]) in base_alarms:
                 continue
             vs.append({'rule': 'erased-program-ill-typed', 'site': 'src/transformations/type_erasure.py',
-                       'shape': '%s: expected %s, found %s' % (a[0], c01.abstract_str(a[2]), c01.abstract_str(a[3])),
+                       'shape': 'position kind: %s' % a[0],
                        'path': a[1], 'expected': a[2], 'found': a[3], 'extra': str(a[4])[:300]})
         # (3) javac
         if lang == 'java' and self.use_javac and x.T1:
@@ -218,7 +218,7 @@ class Oracle:
                         if alarms:
                             a = alarms[0]
                             vs.append({'rule': 'feasible-subset-ill-typed', 'site': 'src/analysis/type_dependency_analysis.py:is_combination_feasible',
-                                       'shape': '%s: expected %s, found %s' % (a[0], c01.abstract_str(a[2]), c01.abstract_str(a[3])),
+                                       'shape': 'position kind: %s' % a[0],
                                        'function': node.name, 'omitted': [str(n) for n in comb], 'path': a[1],
                                        'expected': a[2], 'found': a[3]})
                         if lang == 'java' and self.use_javac and self.javac_in_powerset:
